@@ -593,7 +593,7 @@ def main(tier, seed, only=None):
         shards.append(("neighbors", tier, name, D, 900 if tier == "quick" else 25000))
     for name in ("choice-pair", "array1x2", "array1x2,symmetry"):
         for steps in (1, 2) if tier == "quick" else (1, 2, 3):
-            shards.append(("generate", tier, name, steps, 3 if tier == "quick" else 4, 4))
+            shards.append(("generate", tier, name, steps, 3 if (tier == "quick" or steps == 3) else 4, 4))
     for D in (8, 12, 16, 60):
         shards.append(("prng", tier, D))
     for name, _ in repro_configs():
@@ -618,7 +618,7 @@ def main(tier, seed, only=None):
         "explored by the tape in (B)",
         "use_move updates are exempt from the adjacency rule (the property restricts it to value-setting updates)",
     ]
-    par.run_shards(run, worker, shards, seed)
+    par.run_shards(run, worker, shards, seed, shard_limit=240 if tier == "quick" else 3600)
     cov = {
         "states": run.n("states"),
         "transitions": run.c("transitions"),
